@@ -1491,7 +1491,7 @@ fn main() -> std::process::ExitCode {
         "C17",
         "one of the 7 architectures x {function lifted by translate_function from a program assembled here out of the ISA's stack idioms (push/pop/sub/add/lea/leave, addiu $sp, stwu/addi r1, sub/add sp and pre/post-indexed stp/ldp/str/ldr, plus sp from another register, from memory, from a constant) in the shapes straight / diamond / triangle / do-while / while / jump chain / endless loop / diamond in a loop, balanced or not; synthetic gen_il function (entry without predecessors) over the architecture's SP scalar with injected sp = sp +- c, sp = other, loads into sp, constants, non-offset expressions}; stack_pointer_offsets must be Ok and every reported Value(off) must satisfy SP_after == SP_entry + off (mod 2^width) at every visit of the location in 6 reference executions (refil::Machine, stops at the first Branch/Intrinsic) from states with SP typical/unaligned/near 0/near 2^w; non-trivial = analysis Ok with >= 2 distinct reported numeric offsets and an execution visiting a join (first location of a block with >= 2 incoming edges); distinct = (architecture, shape, set of idioms / kinds of SP writes)",
         Box::new(|_t: Tier| from_tape(1200, decode)),
-        |t| t.pick(40_000, 2_000_000),
+        |t| t.pick(150_000, 5_000_000),
         check,
     );
     spec.render = render;
